@@ -9,7 +9,8 @@ Definition WS (c : str) (p : pos) : wop := WF c p (Some c).
     built directly / through [from_config], and the recorded [print_type] of the former *)
 Record oprun := mkOpRun {
   r_vars : vardefs;
-  r_allow : bool;                    (* the option value (direct field, and the config value) *)
+  r_allow : bool;                    (* the option value (direct field, and the effective config value) *)
+  r_cfg : option bool;               (* generate.type.allowUndefinedAsOptionalInput as written in the config (None = absent) *)
   r_direct : tstype;                 (* get_type_for_variable_definitions, options field set directly *)
   r_direct_ops : list wop;           (* TSType::print_type of r_direct *)
   r_config : tstype }.               (* same, options from OperationTypePrinterOptions::from_config(config) *)
@@ -27,7 +28,7 @@ Definition agree (c : case) : bool :=
         let direct := variables_type (mkOOpts ns (r_allow r)) (vars_of r) in
         tstype_eqb direct (r_direct r)
         && wops_eqb (print_type direct) (r_direct_ops r)
-        && tstype_eqb (variables_type (oopts_from_config (r_allow r)) (vars_of r)) (r_config r)) runs
+        && tstype_eqb (variables_type (oopts_from_config (r_cfg r)) (vars_of r)) (r_config r)) runs
   end.
 
 (** ** the property on a finite value domain *)
@@ -75,7 +76,10 @@ Definition holds (c : case) : bool :=
         let o' := with_optional o (r_allow r) in
         if wf_schema o' doc then
           match namespace_members o' doc OpIn with
-          | Ok ms => vars_ok o' doc ms (r_allow r) (vars_of r) (if config_path then r_config r else r_direct r)
+          | Ok ms =>
+              (* through the configuration the option value is the configured one (default: on) *)
+              Bool.eqb (config_allow_undefined (r_cfg r)) (r_allow r)
+              && vars_ok o' doc ms (r_allow r) (vars_of r) (if config_path then r_config r else r_direct r)
           | _ => true
           end
         else true) runs
